@@ -96,6 +96,8 @@ def run(res, replay=None, visit_only=False):
         cfgs = [(c[0], c[1], c[2], VISIT_DEF) for c in cfgs]
     res.extra["configurations"] = ["%s -std=%s" % (c[0], c[1]) for c in cfgs]
     cases = prepare_many(res.seed, nschemas, cfgs)
+    if visit_only:
+        cases.append(prepare_fixed(composites_schema(), cfgs))
     outcome_dist = {"ok": 0, "assert": 0, "oob": 0}
     for ci, mc in enumerate(cases):
         if mc.error:
@@ -129,6 +131,7 @@ def run(res, replay=None, visit_only=False):
                 continue
             buf = pre + img + post
             script = ["base %d" % len(pre), "ctrav"]
+            cvexp = {}
             if not visit_only:
                 for (path, lv, val) in level_views(s, m, v)[:12]:
                     mops = member_ops(s, lv)
@@ -147,6 +150,17 @@ def run(res, replay=None, visit_only=False):
                 ks = list(range(0, nev + 2)) if nev <= 30 else sorted(set([0, 1, 2, nev - 1, nev, nev + 1] + [trng.below(nev) for _ in range(24)]))
                 for k in ks:
                     script.append("ctrav %d" % k)
+                # composite views: visit_children reports the non-constant direct members in order,
+                # and stops at the k-th callback
+                for (path, lv, val) in level_views(s, m, v)[:6]:
+                    for k, f in enumerate(msgdrv.nonconst_fields(s, lv)):
+                        if s.resolve(f.type_name)[0] == "C":
+                            kinds = composite_visit_kinds(s, f.type_name)
+                            script.append("cvisit %s %d" % (path, k))
+                            cvexp[len(script) - 1] = kinds
+                            for kk in range(0, len(kinds.replace("-", "")) + 1):
+                                script.append("cvisit %s %d %d" % (path, k, kk))
+                                cvexp[len(script) - 1] = kinds.replace("-", "")[:kk] or "-"
                 # by-tag access must behave exactly like the named accessors
                 for op in decode_script(s, m, vtree_as_tree(v)):
                     w = op.split()
@@ -154,8 +168,8 @@ def run(res, replay=None, visit_only=False):
                         script.append(op)
                         script.append(" ".join([{"getf": "getft", "getb": "getbt", "ginfo": "ginfot", "dinfo": "dinfot"}[w[0]]] + w[1:]))
             names = expected_names(s, m, v)
-            jobs.append((m, v, buf, script, len(img), names, len(mlines), len(ilines)))
-            mlines += [model_msg_line(s, m), "buf " + hx(buf)] + script
+            jobs.append((m, v, buf, script, len(img), names, len(mlines), len(ilines), cvexp))
+            mlines += [model_msg_line(s, m), "buf " + hx(buf)] + [x if not x.startswith("cvisit") else "use x" for x in script]
             ilines += ["use " + m.name, "buf " + hx(buf)] + script
         mout = model.run(mlines)
         for (cxx, std), exe in mc.exes.items():
@@ -165,7 +179,7 @@ def run(res, replay=None, visit_only=False):
                 res.violation("driver-crash", "generated driver crashed (%s %s): %s" % (cxx, std, err[-300:]),
                               {"schema_xml": mc.xml, "stderr": err[-2000:]})
                 continue
-            for (m, v, buf, script, imglen, names, mo, io) in jobs:
+            for (m, v, buf, script, imglen, names, mo, io, cvexp) in jobs:
                 for j, op in enumerate(script):
                     if j == 0:
                         continue
@@ -174,7 +188,11 @@ def run(res, replay=None, visit_only=False):
                     nontriv = (len(op.split()) > 4) if op.startswith("cur") else bool(names)
                     res.count((s.package, m.name, hx(buf)[:40], op, cxx, std), nontriv)
                     bad = None
-                    if op.startswith("ctrav "):
+                    if op.startswith("cvisit"):
+                        if b2 != cvexp[j]:
+                            bad = ("composite-visit", "`%s`: visit_children of the composite reported members `%s`, the schema's "
+                                   "non-constant members are `%s`" % (op, b2, cvexp[j]))
+                    elif op.startswith("ctrav "):
                         k = int(op.split()[1])
                         full = mout[mo + 2 + 1].split(" c=")[0].split()
                         want = " ".join(full[:k])
